@@ -6,7 +6,7 @@
    The digest function is universally quantified in every theorem ([dg]); no
    cryptographic assumption is made anywhere. *)
 From Coq Require Import List NArith Bool.
-From RV Require Import Cluster.Auth Cluster.AuthProofs.
+From RV Require Import Cluster.Auth Cluster.AuthProofs Cluster.Gate Cluster.GateProofs.
 Import ListNotations.
 Local Open Scope N_scope.
 
@@ -82,7 +82,83 @@ Theorem C17_fsm_oracle_sound_client : forall dg ck ops,
   check_C17_client dg ck CWaitStatus ops (c_trace dg ck CWaitStatus ops) = true.
 Proof. exact check_client_sound_init. Qed.
 
-(*GATE-PART*)
+(* ---------- (2) the session's handler of network messages ---------- *)
+
+(* C17_gate: for every configuration (client-side or server-side session), every
+   start state, every sequence of network messages and every behaviour of the
+   environment (random draws, node-server replies, registry contents): an effect
+   of kind Deliver* / Proxy* / Pg* / ListSessions / Connect is produced only while
+   handling a message that arrived when the auth state was already Ok. *)
+Theorem C17_gate : forall dg cfg l st,
+  Forall (fun x : sstate * netmsg * env * list effect =>
+            let '(pre, _, _, eff) := x in
+            existsb protected eff = true -> a_is_ok (s_auth pre) = true)
+         (run_log dg cfg st l).
+Proof. exact run_gate. Qed.
+
+(* the same for the actor, which stops handling at the first requested stop *)
+Theorem C17_gate_actor : forall dg cfg l st,
+  Forall (fun x : sstate * netmsg * env * list effect =>
+            let '(pre, _, _, eff) := x in
+            existsb protected eff = true -> a_is_ok (s_auth pre) = true)
+         (run_actor dg cfg st l).
+Proof. exact run_actor_gate. Qed.
+
+(* one message, contrapositive form *)
+Theorem C17_gate_step : forall dg cfg st m e,
+  a_is_ok (s_auth st) = false -> existsb protected (snd (handle dg cfg st m e)) = false.
+Proof. exact handle_gate. Qed.
+
+(* C17_advertised_only: a cast or call reaches local pid only if the session is
+   authenticated, pid is in the session's advertised set and the registry holds
+   an actor for pid that supports remote messaging *)
+Theorem C17_advertised_only : forall dg cfg st m e x pid,
+  In x (snd (handle dg cfg st m e)) -> delivered_pid x = Some pid ->
+  a_is_ok (s_auth st) = true /\ mem pid (s_adv st) = true /\ mem pid (e_live e) = true.
+Proof. exact handle_advertised_only. Qed.
+
+(* the session can never become authenticated again after Close, whatever it
+   receives, and does nothing protected *)
+Theorem C17_session_close_absorbing : forall dg cfg l st,
+  a_is_close (s_auth st) = true ->
+  Forall (fun x : sstate * netmsg * env * list effect =>
+            let '(pre, _, _, eff) := x in
+            a_is_close (s_auth pre) = true /\ a_is_ok (s_auth pre) = false
+            /\ existsb protected eff = false)
+         (run_log dg cfg st l)
+  /\ a_is_close (s_auth (run_state dg cfg st l)) = true.
+Proof. exact run_closed. Qed.
+
+(* authentication of a session needs the digest of the challenge it issued *)
+Theorem C17_session_ok_needs_digest : forall dg cfg l,
+  a_is_ok (s_auth (run_state dg cfg (init_state cfg) l)) = true ->
+  exists pre m e post ch,
+    l = pre ++ (m, e) :: post
+    /\ a_is_ok (s_auth (run_state dg cfg (init_state cfg) pre)) = false
+    /\ In ch (rnds pre)
+    /\ ((c_server cfg = true /\ exists c2,
+           s_auth (run_state dg cfg (init_state cfg) pre) = AsServer (SWaitReply ch (dg (c_cookie cfg) ch))
+           /\ m = NAuth (AClientChallenge c2 (dg (c_cookie cfg) ch)))
+        \/ (c_server cfg = false /\ exists n cs sch r,
+           s_auth (run_state dg cfg (init_state cfg) pre)
+             = AsClient (CWaitAck n cs sch r ch (dg (c_cookie cfg) ch))
+           /\ m = NAuth (AServerAck (dg (c_cookie cfg) ch)))).
+Proof. exact run_ok_needs_digest. Qed.
+
+(* handshake messages (or anything else) after authentication do not touch the auth state *)
+Theorem C17_ok_stable : forall dg cfg st m e,
+  a_is_ok (s_auth st) = true -> s_auth (fst (handle dg cfg st m e)) = s_auth st.
+Proof. exact handle_ok_stable. Qed.
+
+(* the executable oracles accept every model run *)
+Theorem C17_oracle_sound : forall dg cfg l st,
+  check_C17 (obs_of_log (run_log dg cfg st l)) = true.
+Proof. exact check_C17_sound. Qed.
+
+Theorem C17_closed_oracle_sound : forall dg cfg l st closed,
+  (closed = true -> a_is_close (s_auth st) = true) ->
+  check_C17_closed (obs_closed_of_log (run_log dg cfg st l)) closed = true.
+Proof. exact check_C17_closed_sound. Qed.
 
 (* ---- statement pins ---- *)
 Check (C17_close_absorbing_server : forall dg ck ops, s_run dg ck SClose ops = SClose).
@@ -96,6 +172,15 @@ Check (C17_ok_needs_digest_server : forall dg ck ops d,
     /\ s_run dg ck SWaitName pre = SWaitReply ch (dg ck ch)
     /\ In ch (s_drawn pre) /\ d = dg ck c2
     /\ Forall (fun o => o = SForceWaitStatus) post).
+
+Check (C17_gate : forall dg cfg l st,
+  Forall (fun x : sstate * netmsg * env * list effect =>
+            let '(pre, _, _, eff) := x in
+            existsb protected eff = true -> a_is_ok (s_auth pre) = true)
+         (run_log dg cfg st l)).
+Check (C17_advertised_only : forall dg cfg st m e x pid,
+  In x (snd (handle dg cfg st m e)) -> delivered_pid x = Some pid ->
+  a_is_ok (s_auth st) = true /\ mem pid (s_adv st) = true /\ mem pid (e_live e) = true).
 
 (* ---- non-vacuity ---- *)
 Example ex_server_ok :
@@ -120,6 +205,33 @@ Example ex_expects_nonvacuous :
   /\ c_expects CWaitStatus (AServerStatus 4) = true.
 Proof. vm_compute; auto. Qed.
 
+(* a server-side session: handshake, then a cast to an advertised pid is delivered,
+   a cast to another pid is not; before authentication nothing is *)
+Definition ex_cfg := mkConfig true 0 100 101 false 0.
+Definition ex_env (rnd : N) := mkEnv rnd (Some RNoOther) (Some RNoOther) (Some []) [7; 8] [] [].
+Definition ex_msgs : list (netmsg * env) :=
+  [(NNode (MCast 7), ex_env 0);
+   (NControl (KSpawn [(55, None)]), ex_env 0);
+   (NAuth (AName 1 2 3), ex_env 77);
+   (NNode (MCast 7), ex_env 0);
+   (NAuth (AClientChallenge 5 (dg_sym 0 77)), ex_env 0);
+   (NNode (MCast 7), ex_env 0);
+   (NNode (MCast 9), ex_env 0);
+   (NControl (KSpawn [(55, None)]), ex_env 0);
+   (NControl (KEnumerate 1 2), ex_env 0)].
+Example ex_gate_run :
+  map (fun x => filter protected (snd x)) (run_log dg_sym ex_cfg (init_state ex_cfg) ex_msgs)
+  = [[]; []; []; []; []; [EDeliverCast 7]; []; [EProxySpawn 55 None]; [EListSessions]].
+Proof. vm_compute; reflexivity. Qed.
+Example ex_gate_wrong_cookie :
+  existsb (fun x => existsb protected (snd x))
+    (run_log dg_sym ex_cfg (init_state ex_cfg)
+       [(NAuth (AName 1 2 3), ex_env 77);
+        (NAuth (AClientChallenge 5 (dg_sym 1 77)), ex_env 0);
+        (NNode (MCast 7), ex_env 0); (NControl (KSpawn [(55, None)]), ex_env 0);
+        (NAuth (AClientChallenge 5 (dg_sym 0 77)), ex_env 0); (NNode (MCast 7), ex_env 0)]) = false.
+Proof. vm_compute; reflexivity. Qed.
+
 Print Assumptions C17_close_absorbing_server.
 Print Assumptions C17_close_absorbing_client.
 Print Assumptions C17_close_forever_server.
@@ -132,3 +244,12 @@ Print Assumptions C17_wrong_digest_closes_server.
 Print Assumptions C17_wrong_digest_closes_client.
 Print Assumptions C17_fsm_oracle_sound_server.
 Print Assumptions C17_fsm_oracle_sound_client.
+Print Assumptions C17_gate.
+Print Assumptions C17_gate_actor.
+Print Assumptions C17_gate_step.
+Print Assumptions C17_advertised_only.
+Print Assumptions C17_session_close_absorbing.
+Print Assumptions C17_session_ok_needs_digest.
+Print Assumptions C17_ok_stable.
+Print Assumptions C17_oracle_sound.
+Print Assumptions C17_closed_oracle_sound.
